@@ -1079,6 +1079,11 @@ func (e *Exec) contractCall(fr *frame, st *State, callee *ssa.Function, spec *Fu
 					cenv.vars[k] = v
 				}
 			}
+			for i, n := range names {
+				if i < len(targs) {
+					cenv.vars["arg_"+n] = targs[i] // the call's arguments, by the callee's parameter names
+				}
+			}
 			v := cenv.eval(c.E)
 			e.oblige(fr, st, "lock:call:"+callee.Name(), "call of "+callee.Name()+" requires "+c.Src, pos, v.T)
 		}
@@ -1334,6 +1339,11 @@ func (e *Exec) contractCall(fr *frame, st *State, callee *ssa.Function, spec *Fu
 				}
 			}
 			bindResults(genv.vars, callee, sig, res)
+			for i, n := range names {
+				if i < len(targs) {
+					genv.vars["arg_"+n] = targs[i]
+				}
+			}
 			v := genv.eval(gs.E)
 			genv.ghostVar(g) // registers the ghost heap
 			e.setHeap(st, "G$"+gs.Var, v.T)
